@@ -22,6 +22,7 @@ var CmdTestDownstreamFragmentSize = Command{
 type TestDownstreamFragmentSizeRequest struct {
 	UserId       uint16
 	FragmentSize uint32
+	Padding      uint32 // Number of filler bytes after the fragment size; lets the client make the query as long as a data query
 }
 
 func (vr *TestDownstreamFragmentSizeRequest) Command() Command {
@@ -32,6 +33,9 @@ func (vr *TestDownstreamFragmentSizeRequest) Encode(e enc.Encoder) ([]byte, erro
 	hostname := EncodeRequestHeader(vr.Command(), vr.UserId)
 	data := &bytes.Buffer{}
 	if err := binary.Write(data, binary.LittleEndian, &vr.FragmentSize); err != nil {
+		return nil, err
+	}
+	if _, err := data.Write(make([]byte, vr.Padding)); err != nil {
 		return nil, err
 	}
 	return append(hostname, enc.Base32Encoding.Encode(data.Bytes())...), nil
